@@ -147,7 +147,9 @@ Definition expect_x (AN SN : list bytes) (c : loc) (s : sel) (X : list loc) (q :
             let m' := set_text m (arg_s args 0) in
             let r' := reroot m' in
             let M' := select_all r' s in
-            OL [OS (inner_text m'); OS (inner_text r'); OL (map (fun d => OS (inner_text d)) M'); OI (count_of M')])
+            OL [OS (inner_text m'); OS (inner_text r'); OL (map (fun d => OS (inner_text d)) M'); OI (count_of M');
+                OF (inner_html m'); on_first_o M' (fun d => OI (Z.of_nat (List.length (children d))));
+                on_first_o M' (fun d => OS (inner_text d))])
   | 63 => on_first_o M (fun m =>
             let m' := set_html m (arg_f args 0) in
             let r' := reroot m' in
@@ -206,7 +208,80 @@ Fixpoint docs_mism AN SN (ds : list (node * list dcase)) (i : N) : list (N * N *
 Definition mismatches (AN SN : list bytes) (base : N) (ds : list (node * list dcase)) : list (N * N * N) :=
   docs_mism AN SN ds base.
 
+(* ---------- histories of reads and writes through one element wrapper
+   (kind 70; 170 when the observation equals the mirror of RemoveAttribute
+   without invalidation of the parsed styles) *)
+Definition leb_kv (a b : bytes * bytes) : bool := leb_bytes (fst a) (fst b).
+Definition leb_ka (a b : bytes * aval) : bool := leb_bytes (fst a) (fst b).
+Definition pairs_oval (d : decls) : oval := OL (map (fun kv => OL [OS (fst kv); OS (snd kv)]) (isort leb_kv d)).
+Definition aval_oval (a : aval) : oval := match a with AV v => OS v | AS d => pairs_oval d end.
+Definition rd_oval (r : rd) : oval :=
+  match r with
+  | RdOpt l => OL (map opt_os l)
+  | RdDecls d => pairs_oval d
+  | RdA l => OL (map (fun o => match o with Some a => aval_oval a | None => ONone end) l)
+  | RdAll l => OL (map (fun kv => OL [OS (fst kv); aval_oval (snd kv)]) (isort leb_ka l))
+  end.
+
+(* index of the first position where two observation lists differ *)
+Fixpoint first_diff (a b : list oval) (k : N) : option N :=
+  match a, b with
+  | [], [] => None
+  | x :: a', y :: b' => if oval_eqb x y then first_diff a' b' (k + 1)%N else Some k
+  | _, _ => Some k
+  end.
+
+(* document (index within the file), number of the history within the document,
+   selector (the wrapper is ELEMENT(d, s)), operations, observed reads *)
+Definition hcase := (N * N * sel * list hop * list oval)%type.
+
+Definition hist_mism (ds : list (node * list dcase)) (base : N) (hc : hcase) : list (N * N * N) :=
+  match hc with
+  | (di, j, s, ops, obs) =>
+      match nth_error ds (N.to_nat di) with
+      | None => [(999, base + di, j)%N]
+      | Some (root, _) =>
+          match select_all (to_loc root) s with
+          | [] => [(999, base + di, j)%N]
+          | m :: _ =>
+              let n := est_of (l_h m) in
+              match first_diff obs (map rd_oval (w_run true ops (fresh n))) 0%N with
+              | None => []
+              | Some k =>
+                  match first_diff obs (map rd_oval (w_run false ops (fresh n))) 0%N with
+                  | None => [(170, base + di, j * 100 + k)%N]
+                  | Some _ => [(70, base + di, j * 100 + k)%N]
+                  end
+              end
+          end
+      end
+  end.
+
+Definition hmismatches (base : N) (ds : list (node * list dcase)) (hs : list hcase) : list (N * N * N) :=
+  flat_map (hist_mism ds base) hs.
+
 (* short constructors for the case files *)
+Definition kv (l : list (string * string)) : decls := map (fun p => (bs (fst p), bs (snd p))) l.
+Definition bl (l : list string) : list bytes := map bs l.
+Definition Rs (l : list string) : hop := Rd (RStyle (bl l)).
+Definition RS : hop := Rd RStyles.
+Definition Rg (l : list string) : hop := Rd (RAttrGet (bl l)).
+Definition RA : hop := Rd RAttrs.
+Definition Rm (n : string) : hop := Rd (RAttrMember (bs n)).
+Definition Fs (l : list string) : hop := RdFresh (RStyle (bl l)).
+Definition FS : hop := RdFresh RStyles.
+Definition Fg (l : list string) : hop := RdFresh (RAttrGet (bl l)).
+Definition FA : hop := RdFresh RAttrs.
+Definition Fm (n : string) : hop := RdFresh (RAttrMember (bs n)).
+Definition sa (k v : string) : aset := SetA (bs k) (bs v).
+Definition ss (l : list (string * string)) : aset := SetS (kv l).
+Definition Wa (a : aset) : hop := WAttr a.
+Definition Wb (l : list aset) : hop := WAttrs l.
+Definition Ws (k v : string) : hop := WStyle (bs k) (bs v).
+Definition Wss (l : list (string * string)) : hop := WStyles (kv l).
+Definition Xa (l : list string) : hop := RmAttr (bl l).
+Definition Xs (l : list string) : hop := RmStyle (bl l).
+
 Definition h (tag : string) (attrs style : list (string * string)) : hdr :=
   mkH (bs tag) (map (fun kv => (bs (fst kv), bs (snd kv))) attrs) (map (fun kv => (bs (fst kv), bs (snd kv))) style).
 Definition e (tag : string) (attrs style : list (string * string)) (kids : list node) : node := E (h tag attrs style) kids.
